@@ -65,6 +65,8 @@ def judgeClip (L : Lines) (A : Operand) (rhs : Tok) : String :=
   match rhs with
   | "panic" :: m => s!"SPEC {cls} panic {" ".intercalate m}"
   | "mutated" :: _ => s!"SPEC {cls} an-operand-was-modified-by-the-call"
+  | "crash" :: m => s!"SPEC {cls} crash {" ".intercalate m}"
+  | "timeout" :: m => s!"SPEC {cls} timeout {" ".intercalate m}"
   | "ok" :: rt =>
     match Proto.pGeom 4 rt with
     | some (.multiLineString ps, _) =>
@@ -125,6 +127,15 @@ def judgeLine (line : String) : String :=
   | "clip" :: t =>
     match parseCase t with
     | some (L, A) => judgeClip L A rhs
+    | none => "DIFF parse bad-case-line"
+  | "cc" :: t =>
+    -- concurrent callers: the answer is the first one that differed from the answer computed alone
+    -- (or that answer itself); judged like any other answer, class prefix `conc-`
+    match parseCase t with
+    | some (L, A) =>
+      match (judgeClip L A rhs).splitOn " " with
+      | k :: c :: why => " ".intercalate (k :: s!"conc-{c}" :: why)
+      | _ => "DIFF conc bad-verdict"
     | none => "DIFF parse bad-case-line"
   | "hclip" :: t =>
     -- a history: the same polygon object, its coordinates changed in place between calls; every
